@@ -75,8 +75,10 @@ class Sequence:
         if not sequences_or_jobs:
             return
         new_jobs = self._flatten(sequences_or_jobs)
-        if self.jobs:
-            new_jobs[0].requires(self.jobs[-1])
+        # chain the new jobs behind the current last one, and to one another
+        chain = self.jobs[-1:] + new_jobs
+        for job1, job2 in zip(chain, chain[1:]):
+            job2.requires(job1)
         self.jobs += new_jobs
         if self.scheduler is not None:
             self.scheduler.update(new_jobs)
